@@ -141,7 +141,7 @@ Build(st, sl, rg) ==
     [] st.op = "Join"       -> WStack(JoinV(SlotVals(st.src, sl)))
     [] st.op = "JoinPkg"    -> JoinV(SlotVals(st.src, sl))             \* join.Join, no stack
     [] st.op = "GoJoin"     -> GoJoinV(SlotVals(st.src, sl))
-    [] st.op = "UMulti"     -> V("uMulti", st.s, <<>>, SlotVals(st.src, sl), <<>>)
+    [] st.op = "UMulti"     -> V(IF st.a = <<>> THEN "uMulti" ELSE "uMultiIs", st.s, st.a, SlotVals(st.src, sl), <<>>)
     [] st.op = "GoWrap2"    -> V("goWrapErrors", Text(e) \o st.s \o Text(x), <<>>, <<e, x>>, <<>>)
     [] st.op = "GrpcStatus" -> V("grpcStatus", <<"L_rpcNotFound">> \o st.s, <<>>, <<>>, <<>>)
     \* ---- transfer
@@ -179,10 +179,10 @@ RECURSIVE PartsU(_)
 PartsU(ps) == IF ps = <<>> THEN {} ELSE (IF ps[1].k = "arg" THEN WordsIn(ps[1].s) ELSE {}) \cup PartsU(Tail(ps))
 RECURSIVE PartsS(_)
 PartsS(ps) == IF ps = <<>> THEN {}
-              ELSE (IF ps[1].k \in {"lit", "safe"} THEN WordsIn(ps[1].s) ELSE {}) \cup PartsS(Tail(ps))
+              ELSE (IF ps[1].k \in {"lit", "safe", "xsafe"} THEN WordsIn(ps[1].s) ELSE {}) \cup PartsS(Tail(ps))
 RECURSIVE PartsAllStr(_)
 PartsAllStr(ps) == IF ps = <<>> THEN <<>>
-                   ELSE (IF ps[1].k \in {"lit", "safe", "arg"} THEN <<ps[1].s>> ELSE <<>>) \o PartsAllStr(Tail(ps))
+                   ELSE (IF ps[1].k \in {"lit", "safe", "arg", "xsafe"} THEN <<ps[1].s>> ELSE <<>>) \o PartsAllStr(Tail(ps))
 
 SUnsafeOps == {"GoNew", "PkgNew", "ULeaf", "GrpcStatus", "WithHint", "WithDetail", "HandledWithMessage",
                "HandledInDomainWithMessage", "PkgWithMessage", "PkgWrap", "UWrap", "GoWrap", "GoWrap2", "UMulti",
@@ -195,6 +195,7 @@ KeyWrap(st) == st.op = "UWrap" /\ st.a[1] = <<"uKeyWrap">>
 StepU(st, sl) ==
   (IF st.op \in SUnsafeOps /\ ~KeyWrap(st) THEN WordsIn(st.s) ELSE {})
   \cup PartsU(st.parts)
+  \cup (IF st.op = "UMulti" THEN WordsInAll(st.a) ELSE {})
   \cup (IF st.op = "GoWrap" \/ (st.op = "ULeaf" /\ st.a[1] \notin {<<"uSafeDetLeaf">>, <<"uKeyLeaf">>})
         THEN WordsInAll(st.a) ELSE {})
   \cup (IF st.op = "WithContextTags"
